@@ -1,6 +1,7 @@
 import TcheranVerif.Model.Draw
 import TcheranVerif.Proofs.Bits
 import TcheranVerif.Proofs.LegalPos
+import TcheranVerif.Proofs.Repetition
 /-!
 # C11 — repetition, fifty-move and dead-material draws
 
@@ -10,6 +11,13 @@ import TcheranVerif.Proofs.LegalPos
   explicit), this is exactly "an identical position (placement, side, rights, e.p. target) occurred
   since the last capture or pawn move". Works for FEN starts with a non-zero clock and no history
   (`take` of a short list).
+* **`repeated_along_game`** — discharges that hypothesis: along every game of legal moves from a legal start
+  (`Game::from_state`: empty history, key and accumulators in step) `make_move` answers at every step, the
+  history stack records entry for entry the from-scratch keys of the positions the game went through
+  (`Proofs/Repetition.game_history`, from C02 `make_move_legal_total` / `ginv_apply` and C03 `sync_makeMove`),
+  so the engine's verdict at the reached position **is** the rules' "an identical position occurred since
+  the last capture or pawn move" — under the one assumption that remains, stated in the theorem: the 64-bit
+  key does not confuse the current position with a different earlier position *of this game*.
 * `repeated_window` — entries older than the clock are never consulted.
 * `fifty_exact` — the fifty-move verdict is `clock ≥ 100 ∧ a legal move exists` relative to the
   engine's generator; `fifty_rules` composes it with C01's `generate_exact`: in every legal position the
@@ -333,6 +341,46 @@ theorem material_agrees (g : Game) (hc : g.board.Consistent)
         rw [e]; exact this
     · cases hd2
 
+/-- **repeated_along_game**: the repetition verdict after any game of legal moves from a legal start is the
+rules' verdict on the positions of that game -/
+theorem repeated_along_game (c : Cfg) (g0 : Game) (ms : List Move) (pos' : Rules.Pos) (hs : Sync c g0)
+    (h0 : g0.history = []) (hl : Rules.legalPos (Rules.ofGame g0) = true)
+    (hp : LegalPath (Rules.ofGame g0) ms pos')
+    (hinj : ∀ p ∈ trail (Rules.ofGame g0) ms [], keyOf c p = keyOf c pos' → Rules.samePosition pos' p = true) :
+    ∃ g', makeMoves c g0 ms = some g' ∧ Rules.ofGame g' = pos' ∧
+      g'.isRepeated = Rules.isRepeated pos' (trail (Rules.ofGame g0) ms []) := by
+  obtain ⟨g', h1, h2, h3, h4⟩ := game_history c g0 ms pos' [] hs (ginv_of_legal _ hl) hp (by rw [h0]; rfl)
+  refine ⟨g', h1, h2, ?_⟩
+  refine repeated_exact g' pos' _ (keyOf c) (by rw [← h2]; rfl) h4 (by rw [key_ofGame c g' h3, h2]) ?_
+  intro p hp
+  exact ⟨hinj p hp, fun h => samePosition_key c pos' p h⟩
+
+/-- non-vacuity of `repeated_along_game`: a position built by `Game::from_state` (here
+`7b/8/8/4Pp2/3K4/8/8/k7 w - -`, any key table) meets its three hypotheses about the start, and the empty
+game is a legal path -/
+def demoBoard : Board :=
+  ((((Board.empty.setAt ⟨27, by decide⟩ ⟨.king, .white⟩).setAt ⟨0, by decide⟩ ⟨.king, .black⟩).setAt
+    ⟨36, by decide⟩ ⟨.pawn, .white⟩).setAt ⟨37, by decide⟩ ⟨.pawn, .black⟩).setAt ⟨63, by decide⟩ ⟨.bishop, .black⟩
+
+theorem demo_start (c : Cfg) :
+    Sync c (Game.fromState c demoBoard .white Rights.none none 0 0) ∧
+    (Game.fromState c demoBoard .white Rights.none none 0 0).history = [] ∧
+    Rules.legalPos (Rules.ofGame (Game.fromState c demoBoard .white Rights.none none 0 0)) = true := by
+  refine ⟨?_, rfl, ?_⟩
+  · refine ⟨?_, ?_, rfl⟩
+    · unfold demoBoard
+      refine Board.consistent_setAt _ _ _ (Board.consistent_setAt _ _ _ (Board.consistent_setAt _ _ _
+        (Board.consistent_setAt _ _ _ (Board.consistent_setAt _ _ _ Board.consistent_empty ?_) ?_) ?_) ?_) ?_ <;>
+        decide +kernel
+    · show Game.hash c demoBoard .white Rights.none none = fullHash c demoBoard .white Rights.none none
+      refine hash_eq_fullHash c demoBoard ?_ _ _ _
+      unfold demoBoard
+      refine Board.consistent_setAt _ _ _ (Board.consistent_setAt _ _ _ (Board.consistent_setAt _ _ _
+        (Board.consistent_setAt _ _ _ (Board.consistent_setAt _ _ _ Board.consistent_empty ?_) ?_) ?_) ?_) ?_ <;>
+        decide +kernel
+  · show Rules.legalPos ⟨demoBoard.squares, .white, Rights.none, none, 0, 0⟩ = true
+    decide +kernel
+
 /-- non-vacuity of `repeated_exact`'s shape: a two-entry history with the matching key first -/
 example : ({ player := .white, board := Board.empty, rights := Rights.none, ep := none, halfmove := 2, plies := 2,
              zobrist := 7#64, inc := ⟨0, 0⟩,
@@ -358,3 +406,5 @@ end Tcheran.Props.C11
 #print axioms Tcheran.Props.C11.material_agrees
 #print axioms Tcheran.Props.C11.count_or_pos
 #print axioms Tcheran.Props.C11.isInsufficient_eq
+#print axioms Tcheran.Props.C11.repeated_along_game
+#print axioms Tcheran.Props.C11.demo_start
